@@ -123,6 +123,52 @@ func runC10(cx *Ctx, r *Report) {
 			_, ok1 := hasFact(fs, true, "getTokenByContract(keeper, receipt.Logs[", " : err==nil")
 			_, ok2 := hasFact(fs, false, ".Name != \"SwapToNative\"")
 			r.check(ok1 && ok2, "hook-guards", name, mint.ev.Pos(cx), "the mint is dominated by: event name is SwapToNative and the emitting contract resolves to a registered token", "the hook's mint is not dominated by the SwapToNative / registered-contract guards")
+			// every log of the receipt is processed: inside the loop over the logs the only
+			// way out is a failure; a (possibly) successful return would leave the burns of
+			// the remaining SwapToNative events without their native mint
+			if site := liftTo(mint.ev, rootFrame(mint.ev.Fr)); site != nil && inLoop(site.Block()) {
+				h := loopHeaderOf(site.Block())
+				early := ""
+				for _, b := range site.Parent().Blocks {
+					if b == h || !h.Dominates(b) || !reachesAvoiding(b, h, nil) {
+						continue
+					}
+					// b is inside the loop iff it can get back to the header
+					if !blockReaches(b, h) {
+						continue
+					}
+					if ret, ok := b.Instrs[len(b.Instrs)-1].(*ssa.Return); ok && !isFailureReturn(ret) {
+						early = cx.P.Pos(ret.Pos())
+					}
+				}
+				// returns in blocks that leave the loop without going through the header's exit
+				for _, b := range site.Parent().Blocks {
+					ret, ok := b.Instrs[len(b.Instrs)-1].(*ssa.Return)
+					if !ok || isFailureReturn(ret) {
+						continue
+					}
+					// a non-failure return reached from inside the loop body without passing the header again
+					for _, p := range b.Preds {
+						if p != h && h.Dominates(p) && blockReaches(p, h) {
+							early = cx.P.Pos(ret.Pos())
+						}
+					}
+					if h.Dominates(b) && b != h {
+						only := true
+						for _, p := range b.Preds {
+							if p == h {
+								only = false
+							}
+						}
+						if only && len(b.Preds) > 0 {
+							early = cx.P.Pos(ret.Pos())
+						}
+					}
+				}
+				r.check(early == "", "hook-all-logs", name, mint.ev.Pos(cx), "inside the loop over the receipt's logs only failures return; every SwapToNative event of a transaction gets its native mint", "the hook can return without error from inside the loop over the receipt's logs ("+early+"): the remaining SwapToNative events of the transaction, whose ERC20 has already been burned, are never minted")
+			} else {
+				r.violate("hook-all-logs", name, mint.ev.Pos(cx), "the native mint of the hook is not inside a loop that goes on to the next log of the receipt (the body returns after the first SwapToNative event, or the loop is gone): the remaining SwapToNative events of the transaction, whose ERC20 has already been burned, are never minted")
+			}
 		}
 	}
 	// ---------------- SwapFeeToken
